@@ -42,6 +42,7 @@ struct World {
     Frame R[2]; bool Rset[2] = {false, false};
     std::string dir;           // scratch directory (tmpfs)
     bool loadedRoot = false;   // the object came from a generated file (root op), not from the API
+    Points* heldPts[2] = {nullptr, nullptr};   // a write reference the caller took from its own frame BEFORE handing it over
     World(const std::string& d) : c(new C3D()), dir(d) {}
     std::string path(const char* leaf) const { return dir + "/" + leaf; }
 };
@@ -62,6 +63,7 @@ inline WSnap snapWorld(const World& w) {
     dumpObject(s.text, s.o);
     for (int r = 0; r < 2; ++r) { s.text += "R"; s.text += char('0' + r); s.text += s.regset[r] ? " " : " -\n"; if (s.regset[r]) dumpFrame(s.text, s.reg[r]); }
     if (s.loadedRoot) s.text += "root=file\n";
+    for (int r = 0; r < 2; ++r) if (w.heldPts[r]) { s.text += "held"; s.text += char('0' + r); s.text += '\n'; }
     s.text += "alias=["; for (int a : s.alias) { s.text += std::to_string(a); s.text += ' '; } s.text += "]\n";
     s.key = hashStr(s.text);
     return s;
